@@ -82,6 +82,7 @@ class SymCtx:
         self.violations = []
         self.covers = collections.Counter()
         self.used_opaque = 0
+        self.domain_hits = []
         self.notes = []
         self.observed = collections.OrderedDict()
         self.funcs = {}
@@ -273,8 +274,12 @@ class SymCtx:
         return r == "sat"
 
     def domain(self, e, msg):
-        if not self.branch(e):
-            raise DomainViolation(msg)
+        """Fork on a domain condition; returns False on the violating side (numpy
+        would produce nan/inf with a RuntimeWarning there, not an exception)."""
+        if self.branch(e):
+            return True
+        self.domain_hits.append(msg)
+        return False
 
     def nonzero(self, t):
         if self.branch(t == 0):
@@ -406,7 +411,8 @@ class SymCtx:
         key = ("sqrt", u.get_id())
         if key in self.aux:
             return self.aux[key]
-        self.domain(u >= 0, "sqrt of a negative number")
+        if not self.domain(u >= 0, "sqrt of a negative number"):
+            return None
         s = z3.Real(f"sqrt!{len(self.aux)}")
         self.aux[key] = s
         self.add(s >= 0)
@@ -498,6 +504,7 @@ class ConcCtx:
         self.covers = collections.Counter()
         self.notes = []
         self.observed = collections.OrderedDict()
+        self.domain_hits = []
         self.used = {}
 
     def fresh(self, base):
@@ -611,7 +618,7 @@ class PathResult:
 def run_path(body, prefix, opts):
     """Run body on one path; returns (summary dict, new_prefixes)."""
     global CURRENT
-    ctx = SymCtx(prefix, **opts)
+    ctx = SymCtx(prefix, **{k: v for k, v in opts.items() if not k.startswith('_')})
     CURRENT = ctx
     status, detail = "ok", ""
     try:
@@ -671,6 +678,7 @@ class Aggregate:
         self.samples = []
         self.unexplored = 0
         self.max_depth = 0
+        self.remaining = []
 
     def add_path(self, s):
         self.paths[s["status"]] += 1
@@ -717,8 +725,11 @@ def explore_subtree(body, root, opts, deadline, witness_every=0, sample_cap=3, m
     stack = [tuple(root)]
     n = 0
     while stack:
-        if time.time() > deadline or (max_paths is not None and n >= max_paths):
+        if time.time() > deadline:
             agg.unexplored += len(stack)
+            break
+        if max_paths is not None and n >= max_paths:
+            agg.remaining = stack
             break
         prefix = stack.pop()
         s, new, ctx = run_path(body, prefix, opts)
@@ -812,10 +823,28 @@ def explore(body, opts=None, nproc=None, time_budget_s=600, witness_every=0, spl
             agg.merge(explore_subtree(body, r, opts, deadline, witness_every))
         return agg
     import multiprocessing as mp
+    import queue as _queue
     _POOL_BODY, _POOL_OPTS = body, opts
     mpctx = mp.get_context("fork")
+    pending = deque(roots)
+    results = _queue.Queue()
+    inflight = 0
+    chunk = opts.get("_chunk", 60)
     with mpctx.Pool(nproc) as pool:
-        for a in pool.imap_unordered(_pool_task, [(r, deadline, witness_every, None) for r in roots]):
+        while pending or inflight:
+            while pending and inflight < 3 * nproc:
+                r = pending.pop()
+                pool.apply_async(_pool_task, ((r, deadline, witness_every, chunk),), callback=results.put, error_callback=results.put)
+                inflight += 1
+            a = results.get()
+            inflight -= 1
+            if isinstance(a, BaseException):
+                e = Aggregate()
+                e.paths["engine_error"] += 1
+                e.details[("engine_error", repr(a)[:160])] += 1
+                a = e
+            pending.extend(a.remaining)
+            a.remaining = []
             agg.merge(a)
     return agg
 
